@@ -168,10 +168,10 @@ inductive STyped (Φ : FEnv) (Gg : Env) (ρ : Option Ty) : List SEnv → Stmt F 
       BTyped Φ Gg ρ ([] :: loopScope lv .num :: Gs) body →
       STyped Φ Gg ρ Gs (.forS lv lvTy (.step start stop step) body) Gs
   /-- `for x := range array`: x has the element type -/
-  | forArr (Gs : List SEnv) (lv : Option Str) (e : Expr F) (s : Ty) (body : List (Stmt F)) :
-      (∀ n, lv = some n → n ≠ underscore) → Typed Φ (lookupG Gs Gg) e (.arr s) →
+  | forArr (Gs : List SEnv) (lv : Option Str) (lvTy : Ty) (e : Expr F) (s : Ty) (body : List (Stmt F)) :
+      (∀ n, lv = some n → n ≠ underscore) → (lv ≠ none → lvTy = s) → Typed Φ (lookupG Gs Gg) e (.arr s) →
       BTyped Φ Gg ρ ([] :: loopScope lv s :: Gs) body →
-      STyped Φ Gg ρ Gs (.forS lv s (.over e) body) Gs
+      STyped Φ Gg ρ Gs (.forS lv lvTy (.over e) body) Gs
   /-- `for x := range string`: x is a string (one code point) -/
   | forStr (Gs : List SEnv) (lv : Option Str) (lvTy : Ty) (e : Expr F) (body : List (Stmt F)) :
       (∀ n, lv = some n → n ≠ underscore) → Typed Φ (lookupG Gs Gg) e .str →
